@@ -127,6 +127,59 @@ func runC13(c *Ctx) {
 		}
 	}
 
+	// completion decision: "nothing outstanding" must be evaluated after the consumer ran (the consumer
+	// may send further login plugin messages); a snapshot taken before it completes the login early and
+	// then a second time when the follow-up message is answered.
+	if h != nil {
+		isConsumer := func(in ssa.Instruction) bool {
+			cc := callOf(in)
+			return cc != nil && cc.IsInvoke() && cc.Method.Name() == "OnMessageResponse"
+		}
+		ms := NewMustSince(h, isConsumer, nil)
+		n := 0
+		eachInstr(h, func(in ssa.Instruction) {
+			cc := callOf(in)
+			if cc == nil || cc.IsInvoke() || staticCallee(cc) != nil {
+				return
+			}
+			if _, isB := cc.Value.(*ssa.Builtin); isB {
+				return
+			}
+			// dynamic call of the all-handled callback
+			n++
+			// every len(outstandingResponses) the call is control-dependent on must be read after the consumer
+			okAfter := true
+			seenLen := false
+			for _, e := range EdgeDominators(in.Block()) {
+				cond, _ := e.Cond()
+				derivesFrom(cond, 6, func(v ssa.Value) bool {
+					cl, ok := v.(*ssa.Call)
+					if !ok {
+						return false
+					}
+					if b, isB := cl.Call.Value.(*ssa.Builtin); isB && b.Name() == "len" && isOR(cl.Call.Args[0]) {
+						seenLen = true
+						if !ms.At(cl) {
+							okAfter = false
+						}
+					}
+					return false
+				})
+			}
+			// and the callback value itself is read after the consumer
+			if ld, ok := seeThrough(cc.Value).(*ssa.UnOp); ok {
+				if !ms.At(ld) {
+					okAfter = false
+				}
+			}
+			c.Check("completion-after-consumer", "onAllMessagesHandled@handleLoginPluginResponse", in, seenLen && okAfter,
+				"the 'all messages handled' decision is taken before the consumer ran: a consumer that sends another login plugin message makes the login-completion step run early and then again")
+		})
+		if n == 0 {
+			c.Undecided("completion-after-consumer", "handleLoginPluginResponse", "no completion callback invocation found")
+		}
+	}
+
 	// callbacks and I/O never under l.mu — every function of the type
 	for _, fn := range scope {
 		if !strings.Contains(shortName(fn), "loginInboundConn)") {
